@@ -344,6 +344,27 @@ theorem trim_spec (U : UFacts) (s : Bytes) :
 
 example : trimB UFacts.trivial [32, 0x61, 0xC3, 0xA9, 32, 10] = [0x61, 0xC3, 0xA9] := by decide
 
+/-- **trim(pattern) order witness**: the model trims the front first and then the end *of the remainder*.
+On `'aaa'.trim 'aa'`, `'ababa'.trim 'aba'` and `'ééé'.trim 'éé'` this differs from trimming both ends
+independently on the input (which would give the empty string) — at the byte level and at the code level -/
+theorem trim_pattern_order_witness :
+    trimMatchesB [97, 97] [97, 97, 97] = [97] ∧ trimMatchesIndependentB [97, 97] [97, 97, 97] = [] ∧
+    trimMatchesB [97, 98, 97] [97, 98, 97, 98, 97] = [98, 97] ∧
+    trimMatchesIndependentB [97, 98, 97] [97, 98, 97, 98, 97] = [] ∧
+    trimMatchesB [0xC3, 0xA9, 0xC3, 0xA9] [0xC3, 0xA9, 0xC3, 0xA9, 0xC3, 0xA9] = [0xC3, 0xA9] ∧
+    strBytes (trimOp UFacts.trivial (KStr.ofString [97, 97, 97]) (some [97, 97])) = some [97] ∧
+    strBytes (trimOp UFacts.trivial (KStr.ofSlice [97, 98, 97, 98, 97] 0 5) (some [97, 98, 97])) = some [98, 97] := by
+  decide
+
+/-- `trim_start(pattern)`: the input is some copies of the pattern followed by the result, and the result
+does not start with the pattern (non-empty pattern) -/
+theorem trim_start_pattern_spec {pat : Bytes} (hp : pat ≠ []) (s : Bytes) :
+    ∃ k, s = repPat k pat ++ trimStartMatchesB pat s.length s ∧
+      pat.isPrefixOf (trimStartMatchesB pat s.length s) = false :=
+  trimStartMatchesB_spec hp s.length s (Nat.le_refl _)
+
+example : trimStartMatchesB [97, 97] 5 [97, 97, 97, 97, 97] = [97] := by decide
+
 /-! ## The code-level operations compute the byte-level definitions
 
 The driver runs the `KStr`-level functions (offsets into the shared buffer, `with_bounds(..).unwrap()`);
